@@ -343,3 +343,12 @@ func init() {
 		mutant{Name: "named-function-test-on-the-type-node-alone", Prop: "C01", File: "interp/run.go", Old: "\t\tif isNamedFunc(src) {\n", New: "\t\tif isNamedFuncSrc(src.typ) {\n", Rule: "R01.34", Key: "package/type-node-test-not-used-alone"},
 	)
 }
+
+func init() {
+	addMutants(
+		// D105, D106 reverted
+		mutant{Name: "zero-divisor-rule-for-plain-actions-only", Prop: "C12", File: "interp/typecheck.go", Old: "\tcase aRem, aRemAssign:\n", New: "\tcase aRem:\n", Rule: "R12.20", Key: "typecheck.binaryExpr/zero-divisor-case:aRem/assignment-form-too"},
+		mutant{Name: "zero-test-reads-the-value-of-any-untyped-operand", Prop: "C12", File: "interp/typecheck.go", Old: "\tif !n.rval.IsValid() {\n\t\treturn false\n\t}\n\tc := constantOf(n.rval)\n", New: "\tif n.typ.untyped && constant.Sign(n.rval.Interface().(constant.Value)) == 0 {\n\t\treturn true\n\t}\n\tc := constantOf(n.rval)\n", Rule: "R12.20", Key: "zeroConst/value-read-only-when-valid"},
+		mutant{Name: "not-enough-results-only-for-unnamed-results", Prop: "C12", File: "interp/cfg.go", Old: "\t\t\tif (mustReturnValue(returnSig) || len(n.child) > 0) && nret < sc.def.typ.numOut() {\n", New: "\t\t\tif mustReturnValue(returnSig) && nret < sc.def.typ.numOut() {\n", Rule: "R12.21", Key: "cfg/case:returnStmt/arity:not-enough"},
+	)
+}
